@@ -1886,6 +1886,10 @@ func (c *Conn) protectedReplayMarker(epoch uint16, sequenceNumber uint64) (func(
 	}
 
 	return func() bool {
+		// The detector calls number 0 the newest whenever it accepts it, also
+		// after later numbers of the epoch: the receive position says whether
+		// it has been overtaken.
+		overtaken := sequenceNumber < c.highestRemoteSequenceNumber(epoch)
 		latest := accept()
 		if latest {
 			c.updateRemoteSequenceNumber(epoch, sequenceNumber)
@@ -1894,7 +1898,7 @@ func (c *Conn) protectedReplayMarker(epoch uint16, sequenceNumber uint64) (func(
 		// Newest means newer in epoch and sequence number (RFC 9146 section 6):
 		// the highest number of an epoch the peer has left behind is a stale
 		// record, whatever its number.
-		return latest && epoch >= dtlsstate.CommonState(c.state).RemoteEpoch()
+		return latest && !overtaken && epoch >= dtlsstate.CommonState(c.state).RemoteEpoch()
 	}, true
 }
 
@@ -2028,13 +2032,16 @@ func (c *Conn) legacyReplayMarker(header *recordlayer.Header) (func() bool, bool
 	epoch, sequenceNumber := header.Epoch, header.SequenceNumber
 
 	return func() bool {
+		// number 0 that arrives after later numbers is not the newest,
+		// whatever the detector says (see protectedReplayMarker)
+		overtaken := sequenceNumber < c.highestRemoteSequenceNumber(epoch)
 		latest := markPacketAsValid()
 		if latest {
 			// the receive position travels with an exported state
 			c.updateRemoteSequenceNumber(epoch, sequenceNumber)
 		}
 
-		return latest && epoch >= dtlsstate.CommonState(c.state).RemoteEpoch()
+		return latest && !overtaken && epoch >= dtlsstate.CommonState(c.state).RemoteEpoch()
 	}, true
 }
 
